@@ -8,7 +8,6 @@ package dnsforward
 // SNI check rejects names outside the configured domain.
 
 import (
-	"encoding/binary"
 	"errors"
 	"fmt"
 	"net/netip"
@@ -149,6 +148,9 @@ var vfC16IDs = []string{
 	"alice", "Alice", "KID-1", "x", "0", "a-b", "xn--e1afmkfd", strings.Repeat("a", 63),
 	// invalid labels
 	"-id", "id-", "id_", "a b", "", strings.Repeat("b", 64), "ид", "a%2fb", "a.b", "*",
+	// not letters of a host name, although Unicode case folding maps them to
+	// (or near) ASCII ones: KELVIN SIGN, LATIN SMALL LETTER LONG S, fullwidth k
+	"\u212aate", "ali\u017fe", "\uff4bid",
 }
 
 func vfC16Draw(t *rapid.T) (c *vfC16Case) {
@@ -241,6 +243,9 @@ func TestVFC16Extract(t *testing.T) {
 			w.close()
 		}
 	}()
+	// attributed collects the ClientIDs the server hands to the per-request
+	// client-settings callback: the point where the id takes effect.
+	var attributed []string
 
 	rapid.Check(t, func(t *rapid.T) {
 		c := vfC16Draw(t)
@@ -248,7 +253,10 @@ func TestVFC16Extract(t *testing.T) {
 		w := worlds[key]
 		if w == nil {
 			var err error
-			w, err = vfNewWorld(&vfWorldConf{ProtectionEnabled: true, FilteringEnabled: true, ServerName: c.ServerName, StrictSNI: c.Strict})
+			w, err = vfNewWorld(&vfWorldConf{
+				ProtectionEnabled: true, FilteringEnabled: true, ServerName: c.ServerName, StrictSNI: c.Strict,
+				OnApplyClient: func(id string, _ netip.Addr) { attributed = append(attributed, id) },
+			})
 			if err != nil {
 				t.Fatalf("VERIF-INCONCLUSIVE world: %v", err)
 			}
@@ -266,9 +274,17 @@ func TestVFC16Extract(t *testing.T) {
 		pctx := w.newPCtxC16(q)
 		err := w.srv.HandleBefore(w.srv.dnsProxy, pctx)
 
-		var key8 [8]byte
-		binary.BigEndian.PutUint64(key8[:], pctx.RequestID)
-		got := string(w.srv.clientIDCache.Get(key8[:]))
+		got := ""
+		if err == nil {
+			attributed = nil
+			if perr := w.srv.handleDNSRequest(w.srv.dnsProxy, pctx); perr != nil || pctx.Res == nil {
+				t.Fatalf("an admitted request failed in processing: %v", perr)
+			}
+			if len(attributed) != 1 {
+				t.Fatalf("VERIF-INCONCLUSIVE the client-settings callback ran %d times for one request", len(attributed))
+			}
+			got = attributed[0]
+		}
 
 		vfC16.Eval()
 		vfC16.Class("proto:" + string(c.Proto))
